@@ -490,6 +490,9 @@ def _run_stream(ctx: lib.Ctx, models, gens, work: pathlib.Path) -> None:
     for k, (name, mm, gen) in enumerate(chosen):
         source = mmg.render_source(mm)
         instances = xg.gen_instances(mm, random.Random(rng.getrandbits(64)), n_inst if name != "probe" else 2 * n_inst)
+        curated = xg.curated_quantifier_instances(mm, random.Random(rng.getrandbits(64)))
+        stats["curated_some_elements_instances"] = stats.get("curated_some_elements_instances", 0) + len(curated)
+        instances = curated + instances
         if not instances:
             continue
         payload = {"files": gen["python"]["files"], "instances": instances,
